@@ -450,6 +450,9 @@ class Engine:
         k = op[0]
         if k == 'const':
             return self.const(st, op[1])
+        if k == 'fnitem':
+            o = Obj('fn item', kind='fnitem'); o.attrs['path'] = op[1]
+            return o
         v = self.get(st, op[1])
         if k == 'copy' and isinstance(v, (Obj, tuple)):
             return self.copy_val(v)
@@ -549,8 +552,12 @@ class Engine:
         if d is None:
             if o.kind == 'const':
                 raise MirError('discriminant of opaque const ' + o.attrs.get('const', ''))
-            o.discr = d = z3.BitVec(f'discr_{_short(o.ty)}_{nid()}', 64)
-            st.lazy.setdefault((o.lz, 'discr'), d)
+            if (o.lz, 'discr') not in st.lazy:
+                d = z3.BitVec(f'discr_{_short(o.ty)}_{nid()}', 64)
+                st.lazy[(o.lz, 'discr')] = d
+                a = self.adts.lookup(o.ty) if o.ty else None
+                if a and a['kind'] == 'enum' and a['variants']:
+                    st.pc.append(z3.Or(*[d == z3.BitVecVal(v['discr'] if v['discr'] is not None else v['index'], 64) for v in a['variants']]))
             o.discr = d = st.lazy[(o.lz, 'discr')]
         if isinstance(d, str):
             i = self.adts.variant_index(o.ty, d)
@@ -775,9 +782,10 @@ class Engine:
         return o
 
     # ---------------- calls
-    def push(self, st, fname, args, dest, nxt, cont=None):
-        fn = self.fns[fname].parse()
-        self.stats['fns'][fname] = fn
+    def push(self, st, fname, args, dest, nxt, cont=None, fn=None):
+        if fn is None:
+            fn = self.fns[fname].parse()
+            self.stats['fns'][fname] = fn
         nf = Frame(fn, dest, nxt, cont)
         if len(args) != len(fn.params):
             raise MirError(f'arity mismatch calling {fname}: {len(args)} vs {len(fn.params)}')
@@ -790,6 +798,10 @@ class Engine:
     def call_closure(self, st, clo, args, dest, nxt, cont=None, by_ref=True):
         """invoke closure object `clo` with argument list `args` (already-evaluated values)"""
         clo_v = self.deref_val(st, clo)
+        if isinstance(clo_v, Obj) and clo_v.kind == 'fnitem':
+            tr = trampoline(clo_v.attrs['path'], len(args))
+            self.push(st, None, list(args), dest, nxt, cont, fn=tr)
+            return
         if not isinstance(clo_v, Obj) or clo_v.kind != 'closure':
             raise MirError(f'not a closure: {clo_v!r}')
         body = self.closure_body(clo_v)
@@ -1047,6 +1059,19 @@ def _mk_driver():
 
 
 DRIVER_POLL = _mk_driver()
+_TRAMPOLINES = {}
+
+
+def trampoline(callee, nargs):
+    """synthetic frame that performs one call to `callee` (used to invoke fn items through the normal dispatch with a continuation)"""
+    key = (callee, nargs)
+    if key not in _TRAMPOLINES:
+        ps = ', '.join(f'_{i + 1}: A{i}' for i in range(nargs))
+        f = mir.Fn(f'verif::trampoline<{callee}>', ps, '?', 'verif')
+        args = ', '.join(f'move _{i + 1}' for i in range(nargs))
+        f.lines = ['    bb0: {', f'        _0 = {callee}({args}) -> [return: bb1, unwind continue];', '    }', '    bb1: {', '        return;', '    }']
+        _TRAMPOLINES[key] = f.parse()
+    return _TRAMPOLINES[key]
 
 
 def _subseq(a, b):
